@@ -2,6 +2,7 @@
 from .families import run_family
 from ..rules import structure as st
 from ..rules import callsites as cs
+from ..rules import origin
 
 
 def extras():
@@ -14,4 +15,6 @@ def run(rep, fb, tier):
 
 EXTRAS = [
     lambda rep, fb, tier: st.rule_negaxis(rep, fb, floor=28),
+    lambda rep, fb, tier: origin.rule_rebase(rep, fb),
+    lambda rep, fb, tier: origin.rule_origin(rep, fb),
 ]
